@@ -191,11 +191,11 @@ def apalache(module, inv, length=0, cinit=None, init=None, timeout=600, extra=No
 _built = {}
 
 
-def build_harness(flavour="release"):
+def build_harness(flavour="release", binname="c14"):
     """cargo build of the harness against /repo's working tree (hooks on).  flavour selects a
     target dir + flags; serialised by a file lock."""
-    if flavour in _built:
-        return _built[flavour]
+    if (flavour, binname) in _built:
+        return _built[(flavour, binname)]
     os.makedirs(OUT, exist_ok=True)
     lock = open(os.path.join(OUT, ".build.lock"), "w")
     fcntl.flock(lock, fcntl.LOCK_EX)
@@ -218,24 +218,25 @@ def build_harness(flavour="release"):
             raise ToolError("unknown flavour " + flavour)
         if rustflags:
             env["RUSTFLAGS"] = rustflags
-        cmd = ["cargo", "build", "--release", "--offline", "--target-dir", tdir]
+        cmd = ["cargo", "build", "--release", "--offline", "--target-dir", tdir, "--bin", binname]
         t0 = time.time()
         p = subprocess.run(cmd, cwd=HARNESS, env=env, stdout=subprocess.PIPE,
                            stderr=subprocess.STDOUT, text=True, errors="replace")
         if p.returncode != 0:
             raise ToolError("harness build failed (%s):\n%s" % (flavour, "\n".join(p.stdout.splitlines()[-60:])))
-        binp = os.path.join(HARNESS, tdir, "release", "vh")
-        _built[flavour] = binp
-        log("[build] harness %s built in %.1fs" % (flavour, time.time() - t0))
+        binp = os.path.join(HARNESS, tdir, "release", binname)
+        _built[(flavour, binname)] = binp
+        log("[build] harness %s/%s built in %.1fs" % (binname, flavour, time.time() - t0))
         return binp
     finally:
         fcntl.flock(lock, fcntl.LOCK_UN)
         lock.close()
 
 
-def vh(args, flavour="release", timeout=1800, env=None, stdin=None, check=True):
-    """Run the harness binary; returns list of JSON result lines (stdout lines starting with '{')."""
-    binp = build_harness(flavour)
+def vh(args, flavour="release", timeout=1800, env=None, stdin=None, check=True, binname="c14"):
+    """Run harness binary `binname` (harness/src/bin/<binname>.rs); returns the list of JSON result
+    lines (stdout lines starting with '{')."""
+    binp = build_harness(flavour, binname)
     e = dict(os.environ)
     e["VERIF_SEED"] = str(seed())
     if env:
